@@ -1,21 +1,196 @@
 package main
 
-import "golang.org/x/tools/go/ssa"
+import (
+	"fmt"
+	"strings"
+
+	"golang.org/x/tools/go/ssa"
+)
 
 // Named relational lemmas for index sites the generic prover cannot discharge (DESIGN.md C07/P3 a–d).
+// Each is re-proved on every run from the explored models; nothing is assumed.
 type lemmas struct {
-	p *Prog
-	l *Ledger
+	p        *Prog
+	l        *Ledger
+	lexOK    *bool
+	lexWhy   string
+	parseOK  *bool
+	parseWhy string
 }
 
 func newLemmas(p *Prog, l *Ledger) *lemmas { return &lemmas{p: p, l: l} }
 
+// lemma (b): every advance() of the scanner happens where a rune is known to be left.
+func (lm *lemmas) lexerAdvanceSafe() (bool, string) {
+	if lm.lexOK != nil {
+		return *lm.lexOK, lm.lexWhy
+	}
+	ok := true
+	var why []string
+	scratch := NewLedger("lemma", "quick", 0, "")
+	if !checkLexPrimitives(lm.p, scratch, "prim") {
+		ok = false
+		why = append(why, "the cursor primitives deviate from their reference words")
+	}
+	for _, o := range scratch.Obls {
+		if o.Status != Discharged {
+			ok = false
+			why = append(why, o.Construct+": "+o.Why)
+		}
+	}
+	run := exploreScanToken(lm.p)
+	if run == nil || len(run.m.Undecided) > 0 {
+		ok = false
+		why = append(why, "scanToken could not be explored")
+	} else {
+		n := 0
+		for _, e := range run.m.G.Events("consume") {
+			n++
+			if e.KV["unsafe"] != "" {
+				ok = false
+				why = append(why, "advance at "+e.Pos+": "+e.KV["unsafe"])
+			}
+		}
+		if n < 8 {
+			ok = false
+			why = append(why, fmt.Sprintf("only %d consumption sites explored", n))
+		}
+	}
+	// scanToken is entered only under !isAtEnd, and advance/match are called only from code explored under scanToken
+	scratch2 := NewLedger("lemma", "quick", 0, "")
+	checkScanTokensLoop(lm.p, scratch2)
+	for _, o := range scratch2.Obls {
+		if o.Status != Discharged {
+			ok = false
+			why = append(why, "ScanTokens: "+o.Why)
+		}
+	}
+	scanTok := lm.p.Func("lexer.(*Scanner).scanToken")
+	if scanTok != nil {
+		under := lm.p.Reachable(scanTok)
+		for _, prim := range []string{"advance", "match"} {
+			fn := lm.p.Func("lexer.(*Scanner)." + prim)
+			if fn == nil {
+				continue
+			}
+			for _, cs := range lm.p.CallSites(fn) {
+				if !under[cs.Parent()] {
+					ok = false
+					why = append(why, prim+"() is also called from "+lm.p.FuncKey(cs.Parent())+", outside the explored token scan")
+				}
+			}
+		}
+		for _, cs := range lm.p.CallSites(scanTok) {
+			if lm.p.FuncKey(cs.Parent()) != "lexer.(*Scanner).ScanTokens" {
+				ok = false
+				why = append(why, "scanToken is also called from "+lm.p.FuncKey(cs.Parent()))
+			}
+		}
+	}
+	lm.lexOK = &ok
+	lm.lexWhy = strings.Join(why, "; ")
+	if ok {
+		lm.lexWhy = "lemma b: every advance() site of the explored scanner is reached with 'not at end' established (by !isAtEnd(), by a peek()/peekNext() that returned a rune, or by the ScanTokens loop guard); the primitives match their reference words; advance/match have no other callers"
+	}
+	return ok, lm.lexWhy
+}
+
 func (lm *lemmas) index(in ssa.Instruction, s, idx ssa.Value) (ok bool, why string, handled bool) {
+	fk := lm.p.FuncKey(in.Parent())
+	ds, di := describe(s), describe(idx)
+	switch {
+	case fk == "lexer.(*Scanner).advance" && ds == "s.source" && di == "s.current":
+		ok, why = lm.lexerAdvanceSafe()
+		return ok, why, true
+	case fk == "parser.(*Parser).peek" && ds == "p.tokens" && di == "p.current":
+		ok, why = lm.parserCursorSafe()
+		return ok, why, true
+	case fk == "parser.(*Parser).previous" && ds == "p.tokens" && di == "(p.current-1)":
+		ok, why = lm.parserCursorSafe()
+		return ok, why, true
+	case fk == "interpreter.(*Function).Call" && ds == "arguments":
+		ok, why = lm.argumentsIndexSafe(in, idx)
+		return ok, why, true
+	}
 	return false, "", false
 }
 
 func (lm *lemmas) slice(fn *ssa.Function, x *ssa.Slice) (ok bool, why string, handled bool) {
-	return false, "", false
+	if fnPkgName(fn) != "lexer" || describe(x.X) != "s.source" {
+		return false, "", false
+	}
+	// lemma (c): start+klo <= current+khi needs that many consumed runes; the rest (0 <= start, current <= len) are field invariants
+	if okb, w := lm.lexerAdvanceSafe(); !okb {
+		return false, "lemma c needs lemma b: " + w, true
+	}
+	run := exploreScanToken(lm.p)
+	if run == nil {
+		return false, "scanner not explored", true
+	}
+	good, bad := sliceObligations(run.m.G)
+	pos := lm.p.InstrPos(x)
+	for _, b := range bad {
+		if strings.HasPrefix(b, pos+":") {
+			return false, "lemma c fails: " + b, true
+		}
+	}
+	for _, g := range good {
+		if strings.HasPrefix(g, pos+":") {
+			return true, "lemma c: " + g + "; start <= current <= len(source) by the who-writes invariants of the scanner fields", true
+		}
+	}
+	return false, "lemma c: the slice at " + pos + " was not reached by the scanner exploration", true
 }
 
 func (lm *lemmas) finish() {}
+
+// lemma (a): Function.Call's arguments[k], k ranging over Declaration.Params.
+func (lm *lemmas) argumentsIndexSafe(in ssa.Instruction, idx ssa.Value) (bool, string) {
+	p := lm.p
+	// 1. the index is the counter of a range over f.Declaration.Params
+	cn := &Canon{p: p}
+	li := cn.expr(idx)
+	if !strings.HasPrefix(li.base, "v:") || li.off != 1 {
+		return false, "lemma a: index " + describe(idx) + " is not a range counter"
+	}
+	blk := in.Block()
+	var rangedOver ssa.Value
+	for b := blk; b != nil; b = b.Idom() {
+		if strings.HasPrefix(b.Comment, "rangeindex.loop") {
+			if iff, ok := b.Instrs[len(b.Instrs)-1].(*ssa.If); ok {
+				if bo, ok := iff.Cond.(*ssa.BinOp); ok {
+					rangedOver = lenArg(bo.Y)
+				}
+			}
+			break
+		}
+	}
+	if rangedOver == nil || !strings.HasSuffix(describe(rangedOver), "Declaration.Params") {
+		return false, "lemma a: the loop does not range over Declaration.Params (" + descOpt(rangedOver) + ")"
+	}
+	// 2. Arity() == len(Declaration.Params), the only invoker is the call clause, and the call clause passes
+	//    exactly len(e.Arguments) values after the arity test — C04/S3 monitors; re-run them here
+	scratch := NewLedger("lemma", "quick", 0, "")
+	cs := getClauses(p)
+	if len(cs.Probs) > 0 {
+		return false, "lemma a: evaluator could not be explored"
+	}
+	checkCallProtocol(cs, scratch)
+	checkFunctionCall(cs, scratch)
+	for _, o := range scratch.Obls {
+		if o.Status != Discharged && (strings.HasPrefix(o.Rule, "C04/S3") || o.Rule == "C04/S3-arity") {
+			return false, "lemma a needs the call protocol: " + o.Rule + " @ " + o.Construct + ": " + o.Why
+		}
+	}
+	return true, "lemma a: Callable.Call is invoked only by the call clause, after 'Arity()==-1 or len(Arguments)==Arity()' succeeded, with one appended value per argument expression; Function.Arity() is len(Declaration.Params) >= 0, so len(arguments) == len(Params) and k < len(Params)"
+}
+
+// lemma (d): filled in by the parser rules (c08.go)
+func (lm *lemmas) parserCursorSafe() (bool, string) {
+	if lm.parseOK != nil {
+		return *lm.parseOK, lm.parseWhy
+	}
+	ok, why := parserCursorLemma(lm.p)
+	lm.parseOK, lm.parseWhy = &ok, why
+	return ok, why
+}
